@@ -78,6 +78,12 @@ def check(ctx, case):
             return x == y
         return abs(x - y) <= tol * max(scale, F(1, 1000))
 
+    if exact and not case.get("curved") and all(x[0] not in "EW" for x in case["env"]):
+        # the computable premise of theorem C05_inclusion_exclusion_partial, evaluated by the extracted model
+        cov = ctx.model.branch_faithful(case["env"][0], case["env"][1])
+        ctx.count("theorem-premise:" + ("holds" if cov else "fails"))
+        if not cov:
+            ctx.notes.append("C05 premise general_branch_faithful_b fails on a generated case (judged by the oracle only)")
     if exact and not case.get("curved"):
         # correspondence: the moments of the implementation's results against the model's results
         for op in "|&-^":
